@@ -4,7 +4,7 @@ rows=[]; n=0; missed=[]
 for d in sorted(glob.glob('/verif/seeded/*/meta.json')):
     m=json.load(open(d)); name=os.path.basename(os.path.dirname(d)); n+=1
     det=m.get('detected_by') or {'check':'NOT DETECTED','signature':''}
-    if 'missed before' in det['check'] or det['check']=='NOT DETECTED': missed.append(name)
+    if 'missed before' in det['check'] or det['check']=='NOT DETECTED' or 'strengthening' in m: missed.append(name)
     rows.append("| `%s` | %s | %s | %s `%s`%s |"%(name,m['property'],m['needs_to_manifest'].replace('|','/'),det['check'],det['signature'],('; '+m['also_detected_by']) if 'also_detected_by' in m else ''))
 open('/verif/seeded/README.md','w').write('''# Seeded changes
 
